@@ -37,7 +37,7 @@ func backoffCfg(name string) (*backoff.Config, time.Duration) {
 // RunRestart is the engine behind C10.
 func RunRestart(e *Env) {
 	R := e.R
-	R.Rule = "seeded stop/start sequences over subsets of 3-5 nodes: down at creation (blocking and non-blocking dial), crash while idle / while a handler is gated / repeatedly, outages 0-1.5 s, interleaved with calls; back-off configurations default, 50-200 ms and a fixed 6 s (multiplier 1, jitter 0); " +
+	R.Rule = "seeded stop/start sequences over subsets of 3-5 nodes: down at creation (blocking and non-blocking dial; coming up either before any call or in the middle of calls that fail in the sender), crash while idle / while a handler is gated / repeatedly, outages 0-1.5 s, interleaved with calls; back-off configurations default, 50-200 ms and a fixed 6 s (multiplier 1, jitter 0); " +
 		"oracle: (a) after a node listens again, probe calls with fresh contexts reach the new server within 2B+W; (b) a probe whose request the restarted server handled and answered (server-side event) returns that reply within 3 s (< B for the 6 s configuration: it must not wait out the back-off timer); " +
 		"(c) every accepted server stream triggered the connect callback exactly once and before its first handler, and carries the manager's metadata and the per-node metadata with the right values; distinct = sequence"
 	R.Assume("the same back-off value is handed to gRPC's ClientConn (mgr.go), so the transport itself may wait up to B before re-dialling; clause (a) therefore allows 2B+W")
@@ -77,6 +77,10 @@ func RunRestart(e *Env) {
 	}
 	for i := 0; i < e.Pick(8, 300); i++ {
 		cases = append(cases, mk("B6s"))
+	}
+	// nodes that are down at creation (non-blocking dial) and come up under traffic, for every back-off configuration
+	for rep := 0; rep < e.Pick(6, 60); rep++ {
+		cases = append(cases, RCase{N: 3, Backoff: []string{"short", "default", "short"}[rep%3], Down: []int{rep % 3, (rep + 1) % 3}, Steps: []string{"calls"}})
 	}
 	// the directed sequence for the back-off clause
 	cases = append(cases, RCase{N: 3, Backoff: "B6s", Steps: []string{"crash-idle:0"}}, RCase{N: 3, Backoff: "B6s", Block: true, Down: []int{1}, Steps: []string{"calls"}})
@@ -187,7 +191,24 @@ func runRestartCase(e *Env, idx int, c RCase) {
 		return false
 	}
 	// nodes down at creation come up first
-	for _, i := range c.Down {
+	for k, i := range c.Down {
+		if !c.Block && (idx+k)%2 == 0 {
+			// calls are already being made while the node is still down (each fails in the sender); it starts listening in the
+			// middle of that traffic, i.e. possibly while the sender is dialling or waiting to retry
+			d := time.Duration(30+37*((idx+k)%7)) * time.Millisecond
+			rerr := make(chan error, 1)
+			go func() { time.Sleep(d); rerr <- cl.Srvs[i].Restart() }()
+			ok := probe(i, "down at creation, calls during the outage")
+			if err := <-rerr; err != nil {
+				R.Inconc("restart: " + err.Error())
+				return
+			}
+			if !ok {
+				return
+			}
+			R.Count("nodes_coming_up_under_traffic", 1)
+			continue
+		}
 		time.Sleep(50 * time.Millisecond)
 		if err := cl.Srvs[i].Restart(); err != nil {
 			R.Inconc("restart: " + err.Error())
